@@ -69,10 +69,12 @@ def run_one(mod, plan):
 
 def _batch(args):
     prop, seed, tier, runs, mode = args
-    faulthandler.dump_traceback_later(600, exit=True)
     mod = load_check(prop)
     out = []
     for run in runs:
+        # wall-clock watchdog per plan (a hang inside repository code is caught by the step budget of C05; this
+        # only guards the harness): the worker dies, which the engine reports as a harness error, never as a verdict
+        faulthandler.dump_traceback_later(getattr(mod, "PLAN_WATCHDOG_S", 900), exit=True)
         plan = plan_for(mod, seed, tier, run)
         plan["_mode"] = mode
         t = time.time()
@@ -95,7 +97,7 @@ def engine(prop, seed, tier, mode, nruns, wall, workers, first_run=0):
     t0 = time.time()
     agg = {"runs": 0, "evals": 0, "events": 0, "stats": collections.Counter(), "traces": set(),
            "violations": [], "harness_errors": [], "samples": [], "mode": mode, "wall_hit": False}
-    batch = max(1, min(8, nruns // (workers * 4) or 1))
+    batch = max(1, min(getattr(load_check(prop), "BATCH", 8), nruns // (workers * 4) or 1))
     tasks = [(prop, seed, tier, list(range(i, min(i + batch, first_run + nruns))), mode)
              for i in range(first_run, first_run + nruns, batch)]
     ctx = multiprocessing.get_context("fork")
@@ -112,7 +114,12 @@ def engine(prop, seed, tier, mode, nruns, wall, workers, first_run=0):
                     t = next(it)
                 except StopIteration:
                     return
-                pending[ex.submit(_batch, t)] = t
+                try:
+                    pending[ex.submit(_batch, t)] = t
+                except cf.process.BrokenProcessPool as e:
+                    agg["harness_errors"].append("worker pool broken (a worker died): %r" % (e,))
+                    agg["wall_hit"] = True
+                    return
         submit_more()
         while pending:
             done, _ = cf.wait(list(pending), timeout=max(1.0, wall * 3 + 120 - (time.time() - t0)),
